@@ -137,8 +137,11 @@ def entries():
 
     add("RandomSampling", "RandomSampling", model=None, samplewise=False)
     add("ProbabilisticAL", "ProbabilisticAL", model="clf_freq", samplewise=True)
-    for m in ("least_confident", "margin_sampling", "entropy", "expected_average_precision"):
+    for m in ("least_confident", "margin_sampling", "entropy"):
         add("UncertaintySampling(%s)" % m, "UncertaintySampling", {"method": m}, model="clf", samplewise=True)
+    # expected average precision ranks a candidate against the other candidates
+    add("UncertaintySampling(expected_average_precision)", "UncertaintySampling",
+        {"method": "expected_average_precision"}, model="clf", samplewise=False)
     add("EpistemicUncertaintySampling", "EpistemicUncertaintySampling", model="clf_freq", samplewise=True)
     add("EpistemicUncertaintySampling(precompute)", "EpistemicUncertaintySampling", {"precompute": True},
         model="clf_freq", samplewise=True)
